@@ -1,0 +1,15 @@
+//go:build verif
+
+package bitcoin
+
+// VerifUnsignedTransaction exposes the unsigned transaction currently held by
+// the builder together with the per-input values the builder recorded for
+// sighash computation (the summands of TotalInputsValue). Verification hook
+// for property C26; no behaviour of its own.
+func (tb *TransactionBuilder) VerifUnsignedTransaction() (*Transaction, []int64) {
+	values := make([]int64, len(tb.sigHashArgs))
+	for i, args := range tb.sigHashArgs {
+		values[i] = args.value
+	}
+	return tb.internal.toTransaction(), values
+}
